@@ -331,6 +331,55 @@ class Analysis:
                 probs.append((fn.node.lineno, f"memoising decorator @{dn}"))
         return probs
 
+    BINS_SOURCES = {"new_bins", "copy_bins", "add_empty_bins", "remove_bins", "concatenate_bins", "add_item_to_bin"}
+
+    def interface_breaches(self, fn: Fn):
+        """a bins-array obtained from the caller's manager is used only through that manager's interface (C06): never subscripted, measured with
+        len(), iterated or unpacked by an algorithm.  Bins of a manager the function created itself (a local BinnerKeepingContents) are its own."""
+        if fn.mod.endswith("binners.py") or fn.mod.endswith("outputtypes.py"):
+            return None
+        own_binners = set()
+        bins_vars = set()
+        for n in _walk_fn(fn.node):
+            if isinstance(n, ast.Assign) and isinstance(n.value, ast.Call):
+                f = n.value.func
+                callee = f.attr if isinstance(f, ast.Attribute) else f.id if isinstance(f, ast.Name) else ""
+                if callee.startswith("BinnerKeeping"):
+                    for t in n.targets:
+                        if isinstance(t, ast.Name) and t.id != "binner":
+                            own_binners.add(t.id)
+        for _ in range(2):
+            for n in _walk_fn(fn.node):
+                if isinstance(n, ast.Assign):
+                    v = n.value
+                    src = None
+                    if isinstance(v, ast.Call) and isinstance(v.func, ast.Attribute) and v.func.attr in self.BINS_SOURCES and isinstance(v.func.value, ast.Name) \
+                            and v.func.value.id == "binner":
+                        src = True
+                    elif isinstance(v, ast.Call) and ast.unparse(v.func) in ("copy.deepcopy", "deepcopy") and v.args and isinstance(v.args[0], (ast.Name, ast.Attribute)) \
+                            and ast.unparse(v.args[0]) in bins_vars:
+                        src = True
+                    elif isinstance(v, (ast.Name, ast.Attribute)) and ast.unparse(v) in bins_vars:
+                        src = True
+                    if src:
+                        for t in n.targets:
+                            if isinstance(t, (ast.Name, ast.Attribute)):
+                                bins_vars.add(ast.unparse(t))
+        if "bins" in fn.params:
+            bins_vars.add("bins")
+        probs = []
+        for n in _walk_fn(fn.node):
+            if isinstance(n, ast.Subscript) and ast.unparse(n.value) in bins_vars:
+                probs.append((n.lineno, f"bins-array subscripted outside its manager: {ast.unparse(n)}"))
+            elif isinstance(n, ast.Call) and isinstance(n.func, ast.Name) and n.func.id in ("len", "list", "tuple", "sum", "max", "min", "sorted") and n.args \
+                    and ast.unparse(n.args[0]) in bins_vars:
+                probs.append((n.lineno, f"bins-array inspected outside its manager: {ast.unparse(n)}"))
+            elif isinstance(n, (ast.For, ast.comprehension)) and ast.unparse(n.iter) in bins_vars:
+                probs.append((n.lineno, f"bins-array iterated outside its manager: {ast.unparse(n.iter)}"))
+            elif isinstance(n, ast.Assign) and isinstance(n.targets[0], (ast.Tuple, ast.List)) and ast.unparse(n.value) in bins_vars:
+                probs.append((n.lineno, f"bins-array unpacked outside its manager: {ast.unparse(n)}"))
+        return probs if bins_vars else None
+
     def mutable_defaults(self, fn: Fn):
         probs = []
         a = fn.node.args
@@ -433,6 +482,10 @@ def obligations(prop, repo=REPO, rules=("frame", "purity", "clock")):
             md = A.mutable_defaults(fn)
             if md or any(A.is_mutable_ctor(d) for d in fn.node.args.defaults):
                 ob(fn, "C15:no-mutable-default-carrying-state", md, "mutable defaults are never written")
+        if "interface" in rules:
+            ib = A.interface_breaches(fn)
+            if ib is not None:
+                ob(fn, "C06:bins-used-only-through-the-manager-interface", ib, "bins-arrays are only passed to binner methods, stored, returned or deep-copied")
         if "clock" in rules:
             cp = A.clock(fn)
             if cp is not None:
